@@ -69,7 +69,20 @@ def quiet():
 
 
 def _alarm_handler(signum, frame):
-    raise RunTimeout("run exceeded its wall-clock cap")
+    raise RunTimeout("run exceeded its CPU-time cap")
+
+
+def _arm(cap_s):
+    """Cap a run by the CPU time of this process (ITIMER_PROF), so that a loaded machine cannot turn a
+    slow run into harness trouble; a hard wall-clock kill far above it only guards against real hangs."""
+    old = signal.signal(signal.SIGPROF, _alarm_handler)
+    signal.setitimer(signal.ITIMER_PROF, float(cap_s))
+    return old
+
+
+def _disarm(old):
+    signal.setitimer(signal.ITIMER_PROF, 0)
+    signal.signal(signal.SIGPROF, old)
 
 
 # --------------------------------------------------------------------------- one run
@@ -83,9 +96,8 @@ def run_one(args):
     mod = registry.get(prop)
     seed = derive_seed(base_seed, prop, run_index)
     out = {"run_index": run_index, "seed": seed}
-    faulthandler.dump_traceback_later(cap_s + 240, exit=True)
-    old = signal.signal(signal.SIGALRM, _alarm_handler)
-    signal.alarm(int(cap_s))
+    faulthandler.dump_traceback_later(cap_s * 8 + 600, exit=True)
+    old = _arm(cap_s)
     t0 = time.time()
     try:
         rng = random.Random(seed)
@@ -105,8 +117,7 @@ def run_one(args):
     except BaseException as e:  # noqa - a harness defect must surface as exit 2, not be lost
         out["harness_error"] = "%s: %s\n%s" % (type(e).__name__, e, traceback.format_exc()[-3000:])
     finally:
-        signal.alarm(0)
-        signal.signal(signal.SIGALRM, old)
+        _disarm(old)
         faulthandler.cancel_dump_traceback_later()
     out["wall_s"] = time.time() - t0
     return out
@@ -116,15 +127,13 @@ def execute_plan(prop, plan, cap_s=600):
     """Execute a given plan in this process under a wall-clock cap."""
     from sim import registry
     mod = registry.get(prop)
-    old = signal.signal(signal.SIGALRM, _alarm_handler)
-    signal.alarm(int(cap_s))
+    old = _arm(cap_s)
     from sim import seams
     try:
         with seams.solver_guard():
             return mod.execute(plan)
     finally:
-        signal.alarm(0)
-        signal.signal(signal.SIGALRM, old)
+        _disarm(old)
 
 
 def _exec_for_pool(args):
@@ -144,7 +153,7 @@ def run_plans_in_pool(prop, plans, cap_s):
         out = []
         for f in futs:
             try:
-                out.append(f.result(timeout=cap_s * 3 + 120))
+                out.append(f.result(timeout=cap_s * 8 + 900))
             except Exception as e:  # noqa
                 out.append({"violation": None, "harness_error": "pinned plan: %s: %s" % (type(e).__name__, e)})
         return out
@@ -185,9 +194,9 @@ def run_batch(prop, base_seed, tier, n_runs, wall_budget_s, cap_s=180, opts=None
                     nxt += 1
                 if not pending:
                     break
-                done, pending = cf.wait(pending, timeout=cap_s * 3 + 120, return_when=cf.FIRST_COMPLETED)
+                done, pending = cf.wait(pending, timeout=cap_s * 8 + 900, return_when=cf.FIRST_COMPLETED)
                 if not done:
-                    broken = "no worker finished within %d s" % (cap_s * 3 + 120)
+                    broken = "no worker finished within %d s" % (cap_s * 8 + 900)
                     break
                 for f in done:
                     r = f.result()
